@@ -478,7 +478,7 @@ Qed.
 
 (* ------------------------------------------------------------------ abstract position of a reader *)
 Definition st_dec (c : chunked) (acc : bytes) : dres :=
-  let U := src_rest (c_src c) in
+  let U := reach (c_src c) in
   match c_state c with
   | CSize => decU U acc
   | CData => data_res decU (c_remaining c) U acc
@@ -512,7 +512,7 @@ Proof.
   pose proof (line_of_shrink _ _ _ Hlo) as Hsplit.
   assert (Hb' : Bound s') by (apply (Bound_split (c_src c) s' L); assumption).
   unfold line_of in Hlo.
-  destruct (line_crlf (src_rest (c_src c))) as [[[line|] rest]|] eqn:Elc.
+  destruct (line_crlf (reach (c_src c))) as [[[line|] rest]|] eqn:Elc.
   - (* a CRLF-terminated line *)
     pose proof (line_crlf_some _ _ _ Elc) as Etl. rewrite Etl in Hlo. destruct Hlo as [HL Hrest].
     destruct (take_while hexdig line) as [sz ext] eqn:Etw.
@@ -544,7 +544,7 @@ Proof.
 Qed.
 
 (* ------------------------------------------------------------------ trailers *)
-Lemma trailer_loop_empty fuel : forall s, Bound s -> src_rest s = [] ->
+Lemma trailer_loop_empty fuel : forall s, Bound s -> reach s = [] ->
   exists e s', trailer_loop fuel s = (Some e, s').
 Proof.
   induction fuel as [|fuel IH]; intros s Hb Hs; [eexists; eexists; reflexivity|].
@@ -553,11 +553,11 @@ Proof.
   rewrite Hrl. cbn [utf8_valid]. eexists; eexists; reflexivity.
 Qed.
 
-Lemma trailer_loop_spec fuel : forall s, Bound s -> (length (src_rest s) < fuel)%nat ->
-  match dect (src_rest s) with
+Lemma trailer_loop_spec fuel : forall s, Bound s -> (length (reach s) < fuel)%nat ->
+  match dect (reach s) with
   | None => exists e s', trailer_loop fuel s = (Some e, s')
   | Some None => True
-  | Some (Some rest) => exists s', trailer_loop fuel s = (None, s') /\ src_rest s' = rest /\ Bound s'
+  | Some (Some rest) => exists s', trailer_loop fuel s = (None, s') /\ reach s' = rest /\ Bound s'
   end.
 Proof.
   induction fuel as [|fuel IH]; intros s Hb Hf; [lia|].
@@ -566,7 +566,7 @@ Proof.
   pose proof (line_of_shrink _ _ _ Hlo) as Hsplit.
   assert (Hb' : Bound s') by (apply (Bound_split s s' L); assumption).
   unfold line_of in Hlo. rewrite Hrl.
-  destruct (line_crlf (src_rest s)) as [[[line|] rest]|] eqn:Elc.
+  destruct (line_crlf (reach s)) as [[[line|] rest]|] eqn:Elc.
   - pose proof (line_crlf_some _ _ _ Elc) as Etl. rewrite Etl in Hlo. destruct Hlo as [HL Hrest].
     destruct line as [|t0 t].
     + subst L. cbn [app utf8_valid N.ltb]. cbn. exists s'. repeat split; assumption.
@@ -585,7 +585,7 @@ Proof.
           rewrite E in HL2. inversion HL2 as [[H1 H2]]. apply (f_equal (@length byte)) in H2.
           rewrite !app_length in H2. cbn [length] in H2. lia. }
       rewrite HL2. rewrite <- HL2. rewrite Hnb.
-      assert (Hlen : (length (src_rest s') < fuel)%nat).
+      assert (Hlen : (length (reach s') < fuel)%nat).
       { rewrite Hsplit, app_length, HL2 in Hf. cbn [length] in Hf. lia. }
       specialize (IH s' Hb' Hlen). rewrite Hrest in IH. exact IH.
   - exact I.
@@ -642,7 +642,7 @@ Proof.
         right. split; assumption.
     + (* CCrlf *)
       pose proof (read_exact_spec 2 (c_src c)) as Hre.
-      assert (HD : st_dec c acc = after_data decU (src_rest (c_src c)) acc) by (unfold st_dec; rewrite Est; reflexivity).
+      assert (HD : st_dec c acc = after_data decU (reach (c_src c)) acc) by (unfold st_dec; rewrite Est; reflexivity).
       destruct (read_exact 2 (c_src c)) as [[crlf s']|].
       * destruct Hre as [R1 [R2 R3]].
         destruct (bytes_eqb crlf [x0d; x0a]) eqn:Ecr.
@@ -652,21 +652,21 @@ Proof.
            ++ unfold rank in *. rewrite Est in Hr. cbn [c_state]. lia.
            ++ unfold CB. cbn [c_src]. apply (Bound_split (c_src c) s' [x0d; x0a]); assumption.
         -- right. left. eexists. eexists. split; [reflexivity|]. rewrite HD.
-           destruct (after_data_cases decU (src_rest (c_src c)) acc) as [[r [E1 E2]]|[N1 [w E2]]].
+           destruct (after_data_cases decU (reach (c_src c)) acc) as [[r [E1 E2]]|[N1 [w E2]]].
            ++ exfalso. rewrite E1 in R1. destruct crlf as [|a [|b [|c0 t]]];
                 rewrite ?lenN_cons, ?lenN_nil in R2; try lia.
               cbn [app] in R1. inversion R1. subst a b.
               cbn [bytes_eqb] in Ecr. rewrite !byte_eqb_refl in Ecr. discriminate.
            ++ exists w. exact E2.
       * right. left. eexists. eexists. split; [reflexivity|]. rewrite HD.
-        destruct (after_data_cases decU (src_rest (c_src c)) acc) as [[r [E1 E2]]|[N1 [w E2]]].
+        destruct (after_data_cases decU (reach (c_src c)) acc) as [[r [E1 E2]]|[N1 [w E2]]].
         -- exfalso. rewrite E1, !lenN_cons in Hre. lia.
         -- exists w. exact E2.
     + (* CTrailer *)
-      assert (HD : st_dec c acc = trailers_res (src_rest (c_src c)) acc (dect (src_rest (c_src c))))
+      assert (HD : st_dec c acc = trailers_res (reach (c_src c)) acc (dect (reach (c_src c))))
         by (unfold st_dec; rewrite Est; reflexivity).
       pose proof (trailer_loop_spec (sfuel (c_src c)) (c_src c) Hb (proj1 (Bound_fuel _ Hb))) as Ht.
-      destruct (dect (src_rest (c_src c))) as [[rest|]|].
+      destruct (dect (reach (c_src c))) as [[rest|]|].
       * destruct Ht as [s' [T1 [T2 T3]]]. rewrite T1.
         eapply step_ok_D; [|apply IH].
         -- rewrite HD. unfold st_dec. cbn [c_src c_state trailers_res]. rewrite T2. reflexivity.
@@ -691,23 +691,23 @@ Qed.
 
 (* ------------------------------------------------------------------ chunk data *)
 Lemma data_step c c' acc out : c_state c = CData -> c_state c' = CData ->
-  src_rest (c_src c) = out ++ src_rest (c_src c') -> lenN out <= c_remaining c ->
+  reach (c_src c) = out ++ reach (c_src c') -> lenN out <= c_remaining c ->
   c_remaining c' = c_remaining c - lenN out -> st_dec c' (acc ++ out) = st_dec c acc.
 Proof.
   intros H1 H2 H3 H4 H5. unfold st_dec. rewrite H1, H2. cbv zeta. unfold data_res.
   rewrite H3, take_n_app by exact H4. rewrite H5.
-  destruct (take_n (c_remaining c - lenN out) (src_rest (c_src c'))) as [[d a]|]; [|reflexivity].
+  destruct (take_n (c_remaining c - lenN out) (reach (c_src c'))) as [[d a]|]; [|reflexivity].
   rewrite app_assoc. reflexivity.
 Qed.
 
-Lemma data_eof c acc : c_state c = CData -> c_remaining c <> 0 -> src_rest (c_src c) = [] ->
+Lemma data_eof c acc : c_state c = CData -> c_remaining c <> 0 -> reach (c_src c) = [] ->
   st_dec c acc = Invalid Truncated.
 Proof.
   intros H1 H2 H3. unfold st_dec. rewrite H1. cbv zeta. unfold data_res.
   rewrite H3, take_n_nil by exact H2. reflexivity.
 Qed.
 
-Lemma done_dec c acc : c_state c = CDone -> st_dec c acc = Valid acc (src_rest (c_src c)).
+Lemma done_dec c acc : c_state c = CDone -> st_dec c acc = Valid acc (reach (c_src c)).
 Proof. intros H. unfold st_dec. rewrite H. reflexivity. Qed.
 
 (* ------------------------------------------------------------------ the payload extends acc *)
